@@ -126,6 +126,23 @@ mutant in a scratch copy (diff and violation line recorded under `mutants/<id>/`
 | C18 | uncalled range iterator operators, ranges straddling 2^31 / 2^32 and wider than 2^32, NaN / signed zeros / returned-reference identity for min/max/clamp, inexact `eumod` | postfix `--`, 32-bit difference type, ternary `max`, `clamp` with `<=`; new finding (repaired): `eumod` returning the denominator |
 """
 
+SEC63 += """
+A last, narrower review followed the third wave. All three second- and third-wave lessons had the same
+shape - an input dimension the code depends on was CONSTANT over the lattice, or two dimensions were PAIRED
+instead of CROSSED - so five reviewers listed, per harness, the dimensions that are constant, stuck at
+their default, paired, or only ever monotone (`/verif/review/<id>.dims.md`), and the cheapest of those
+were added as lattice values (no new oracles): zero-energy and timed primaries, table-end energies, a
+same-event pair of primaries, tight stack AND initializer limits together (C01/C05/C02/C16); offsets with
+subsequence 0, stream ids, event ids up to 2^64/slots, decoupled stream/event/position indices, a small
+diagnostic bin count, four slots, distinct unique/event ids (C13/C17/C06/C07); x/y-aligned cylinders,
+shifted and non-uniform array grids, a decreasing surface labelling, transformed first operands
+(C03/C11/C10/C09); unequal pre/post speeds, charge 2, permuted volume->material maps, a hollow field map,
+poisoned neighbour slots and a second process (C20/C08/C14/C04); negative inexact eumod denominators,
+static-extent spans, heavy-particle Tsai-Urban, rotation composition against an independent product, unit
+headers (C18/C15/C12/C19). What each harness enumerates after these additions is stated in its header
+comment and in `config/<id>.py`.
+"""
+
 p = os.path.join(HERE, "DESIGN.md")
 s = open(p).read()
 begin = "<!-- SEC6-BEGIN -->"
